@@ -620,7 +620,7 @@ class PersistenceImager(TransformerMixin):
 
         # loop over diagrams to determine the maximum extent of the pairs contained in the birth-persistence plane
         for pers_dgm in pers_dgms:
-            pers_dgm = np.copy(pers_dgm)
+            pers_dgm = np.array(pers_dgm, dtype=float)
             if skew:
                 pers_dgm[:, 1] = pers_dgm[:, 1] - pers_dgm[:, 0]
 
@@ -765,7 +765,7 @@ class PersistenceImager(TransformerMixin):
         matplotlib.Axes
             The matplotlib.Axes which contains the persistence diagram
         """
-        pers_dgm = np.copy(pers_dgm)
+        pers_dgm = np.array(pers_dgm, dtype=float)
 
         if skew:
             pers_dgm[:, 1] = pers_dgm[:, 1] - pers_dgm[:, 0]
@@ -908,7 +908,7 @@ def _transform(
     numpy.ndarray
         (M,N) numpy.ndarray encoding the persistence image corresponding to pers_dgm.
     """
-    pers_dgm = np.copy(pers_dgm)
+    pers_dgm = np.array(pers_dgm, dtype=float)
     pers_img = np.zeros(resolution)
     n = pers_dgm.shape[0]
     general_flag = True
